@@ -80,60 +80,108 @@ def inject(scratch, ks: KaniSet):
         f.write('\n#[cfg(kani)]\n#[allow(unused, non_snake_case, dead_code)]\nmod verif_kani_%s {\n    use super::*;\n%s\n}\n' % (ks.name, ks.body))
 
 
-def run_harness(scratch, ks: KaniSet, h: Harness, target_dir, timeout=1200, default_unwind=2):
+def run_many(scratch, pairs, target_dir, timeout=2400, default_unwind=2, jobs=8):
+    """One cargo-kani invocation for all (KaniSet, Harness) pairs (one compile, CBMC runs in parallel)."""
     env = dict(os.environ)
     env['CARGO_NET_OFFLINE'] = 'true'
     env['CARGO_TARGET_DIR'] = target_dir
-    cmd = ['cargo', 'kani', '-p', ks.package, '-Z', 'stubbing', '-Z', 'function-contracts',
-           '--harness', 'verif_kani_%s::%s' % (ks.name, h.name), '--exact',
-           '--default-unwind', str(h.unwind or default_unwind), '--output-format', 'regular']
+    cmd = ['cargo', 'kani', '-p', 'sudachi', '-Z', 'stubbing', '-Z', 'function-contracts']
+    for ks, h in pairs:
+        cmd += ['--harness', 'verif_kani_%s::%s' % (ks.name, h.name)]
+    cmd += ['-j', str(jobs), '--default-unwind', str(default_unwind), '--output-format', 'terse']
     t0 = time.time()
     try:
         p = subprocess.run(cmd, cwd=scratch, env=env, capture_output=True, text=True, timeout=timeout)
         out = p.stdout + '\n' + p.stderr
-        rc = p.returncode
     except subprocess.TimeoutExpired as e:
         out = ((e.stdout or b'').decode('utf-8', 'replace') if isinstance(e.stdout, bytes) else (e.stdout or '')) + '\nTIMEOUT'
-        rc = 124
-        # make sure no cbmc is left behind
         subprocess.run(['pkill', '-9', '-x', 'cbmc'], capture_output=True)
-    h.time_s = time.time() - t0
-    h.raw_tail = out[-6000:]
-    h.cmd = ' '.join(cmd)
-    m = re.search(r'\*\* (\d+) of (\d+) failed', out)
-    if m:
-        h.checks_failed, h.checks_total = int(m.group(1)), int(m.group(2))
-    if 'VERIFICATION:- SUCCESSFUL' in out:
-        h.status = 'SUCCESSFUL'
-    elif 'VERIFICATION:- FAILED' in out:
-        h.status = 'FAILED'
-        # failed checks
-        for fm in re.finditer(r'Failed Checks: (.*)\n\s*File: "([^"]+)", line (\d+), in (\S+)', out):
-            h.failed_checks.append({'desc': fm.group(1).strip(), 'file': fm.group(2), 'line': int(fm.group(3)), 'fn': fm.group(4)})
-        # unwinding assertion failures on a complete harness mean "not loop free" -> undecided
-    else:
+    wall = time.time() - t0
+    # thread -> harness
+    by_name = {}
+    for ks, h in pairs:
+        by_name['verif_kani_%s::%s' % (ks.name, h.name)] = h
+        h.cmd = ' '.join(cmd[:8]) + ' --harness verif_kani_%s::%s -j %d --default-unwind %d' % (ks.name, h.name, jobs, default_unwind)
         h.status = 'UNDECIDED'
-    # cover results
-    for cm in re.finditer(r'Check \d+: (\S+)\.cover\.\d+\s*\n\s*- Status: (\w+)\s*\n\s*- Description: "([^"]*)"', out):
-        if cm.group(2) != 'SATISFIED':
-            h.cover_unsat.append(cm.group(3))
-    return h
+        h.raw_tail = ''
+    # split output into per-thread streams
+    cur_thread_h = {}
+    blocks = {}
+    cur = None
+    for line in out.split('\n'):
+        m = re.match(r'Thread (\d+): Checking harness (\S+?)\.\.\.', line)
+        if m:
+            full = m.group(2)
+            hh = None
+            for nm, h in by_name.items():
+                if full.endswith(nm):
+                    hh = h
+            cur_thread_h[m.group(1)] = hh
+            cur = None
+            continue
+        m = re.match(r'Thread (\d+): ?(.*)$', line)
+        if m:
+            hh = cur_thread_h.get(m.group(1))
+            cur = hh
+            if hh is not None:
+                blocks.setdefault(id(hh), []).append(m.group(2))
+            continue
+        m = re.match(r'Checking harness (\S+?)\.\.\.', line)
+        if m:  # single-threaded format
+            full = m.group(1)
+            cur = None
+            for nm, h in by_name.items():
+                if full.endswith(nm):
+                    cur = h
+            continue
+        if cur is not None:
+            blocks.setdefault(id(cur), []).append(line)
+            if line.startswith('Verification Time:'):
+                cur = None
+    for ks, h in pairs:
+        txt = '\n'.join(blocks.get(id(h), []))
+        h.raw_tail = txt[-5000:] if txt else out[-3000:]
+        m = re.search(r'\*\* (\d+) of (\d+) failed', txt)
+        if m:
+            h.checks_failed, h.checks_total = int(m.group(1)), int(m.group(2))
+        m = re.search(r'\*\* (\d+) of (\d+) cover properties satisfied', txt)
+        if m and int(m.group(1)) != int(m.group(2)):
+            h.cover_unsat.append('%s of %s cover properties satisfied' % (m.group(1), m.group(2)))
+        m = re.search(r'Verification Time: ([\d\.]+)s', txt)
+        h.time_s = float(m.group(1)) if m else wall
+        if 'VERIFICATION:- SUCCESSFUL' in txt:
+            h.status = 'SUCCESSFUL'
+        elif 'VERIFICATION:- FAILED' in txt:
+            h.status = 'FAILED'
+            for fm in re.finditer(r'Failed Checks: (.*)\n\s*File: "([^"]+)", line (\d+), in (\S+)', txt):
+                h.failed_checks.append({'desc': fm.group(1).strip(), 'file': fm.group(2), 'line': int(fm.group(3)), 'fn': fm.group(4)})
+    return out, wall
 
 
-def concrete_playback(scratch, ks: KaniSet, h: Harness, target_dir, timeout=1200, default_unwind=2):
-    """Ask Kani for a concrete counterexample of a failed harness (printed as a unit test)."""
+def concrete_playback(scratch, ks: KaniSet, h: Harness, target_dir, timeout=1500, default_unwind=2):
+    """Turn the counterexample of a failed harness into a unit test inside the scratch copy (kani writes it
+    in place) and run it against the real code with `cargo kani playback`.  Returns (test_text, replay_failed, output)."""
     env = dict(os.environ)
     env['CARGO_NET_OFFLINE'] = 'true'
     env['CARGO_TARGET_DIR'] = target_dir
-    cmd = ['cargo', 'kani', '-p', ks.package, '-Z', 'stubbing', '-Z', 'function-contracts', '-Z', 'concrete-playback',
-           '--concrete-playback=print',
-           '--harness', 'verif_kani_%s::%s' % (ks.name, h.name), '--exact',
-           '--default-unwind', str(h.unwind or default_unwind)]
+    base = ['cargo', 'kani', '-p', ks.package, '-Z', 'stubbing', '-Z', 'function-contracts', '-Z', 'concrete-playback']
+    cmd = base + ['--concrete-playback=inplace', '--harness', 'verif_kani_%s::%s' % (ks.name, h.name), '--default-unwind', str(default_unwind)]
     try:
         p = subprocess.run(cmd, cwd=scratch, env=env, capture_output=True, text=True, timeout=timeout)
-        out = p.stdout + '\n' + p.stderr
     except subprocess.TimeoutExpired:
-        return ''
-    m = re.search(r'```\s*\n(.*?)```', out, re.S)
-    h.playback = m.group(1) if m else ''
-    return h.playback
+        return '', False, 'playback generation timed out'
+    src = open(os.path.join(scratch, ks.target), encoding='utf-8').read()
+    m = re.search(r'(#\[test\]\s*\n\s*fn (kani_concrete_playback_%s_\w+)\(\) \{.*?\n\s*\})' % re.escape(h.name), src, re.S)
+    if not m:
+        return '', False, 'kani produced no concrete playback test: ' + (p.stdout + p.stderr)[-600:]
+    h.playback = m.group(1)
+    tname = m.group(2)
+    cmd2 = ['cargo', 'kani', 'playback', '-Z', 'concrete-playback', '-p', ks.package, '--', tname]
+    try:
+        p2 = subprocess.run(cmd2, cwd=scratch, env=env, capture_output=True, text=True, timeout=timeout)
+        out2 = p2.stdout + '\n' + p2.stderr
+    except subprocess.TimeoutExpired:
+        return h.playback, False, 'playback run timed out'
+    failed = ('test result: FAILED' in out2) or ('panicked at' in out2)
+    h.playback_output = out2[-2500:]
+    return h.playback, failed, out2[-2500:]
